@@ -10,6 +10,7 @@
 //!   c16_dt_add / c16_dt_sub  ua tx mo dn ; c16_dt_diff ua tx ty
 //!   c16_td_neg mo dn ; c16_td_add / c16_td_sub mo dn mo2 dn2 ; c16_td_mul mo dn kf
 //!   c16_time_add / c16_time_sub tx mo dn [dsec] ; c16_time_misc tx
+//!   c16_from_none ua         -> NaT flags of `None::<f64|f32|i64|i32|u64|usize|isize|u8>` cast to DateTime<ua> / TimeDelta / Time
 //!   c16_cr_range             -> chrono's representable range (validates the constants of the model)
 use crate::proto::Req;
 use crate::rng::Rng;
@@ -231,6 +232,22 @@ pub fn run(r: &Req) -> Option<String> {
             let e = time_tok(Time::from(Cast::<Option<i64>>::cast(t)));
             format!("{};{};{};{}", a, b, c, e)
         },
+        "c16_from_none" => with_unit!(u, U => {
+            // a missing optional number cast to the three time types: NaT, whatever the number type
+            macro_rules! flags { ($($T:ty),*) => {{
+                let mut s = String::new();
+                $(
+                    let a: DateTime<U> = Cast::<DateTime<U>>::cast(None::<$T>);
+                    let b: TimeDelta = Cast::<TimeDelta>::cast(None::<$T>);
+                    let c: Time = Cast::<Time>::cast(None::<$T>);
+                    s.push(if a.is_nat() { '1' } else { '0' });
+                    s.push(if b.is_nat() { '1' } else { '0' });
+                    s.push(if c.is_nat() { '1' } else { '0' });
+                )*
+                s
+            }}; }
+            flags!(f64, f32, i64, i32, u64, usize, isize, u8)
+        }),
         "c16_cr_range" => {
             let lo = Cr::<Utc>::MIN_UTC;
             let hi = Cr::<Utc>::MAX_UTC;
@@ -377,6 +394,9 @@ pub fn generate(tier: &str, rng: &mut Rng) -> (Vec<String>, bool) {
     let small: i128 = if thorough { 3100 } else { 1100 };
     let n_rand = if thorough { 100_000 } else { 10_000 };
     let mut out: Vec<String> = vec!["c16_cr_range".to_string()];
+    for u in UNITS {
+        out.push(format!("c16_from_none ua={}", u));
+    }
     let edges = edge_values();
 
     // ---- 1. unit conversion: exhaustive small + edges, all 4x4 pairs; NaT in both spellings -------
@@ -539,5 +559,5 @@ pub fn rule(tier: &str) -> String {
 i64::MIN..MIN+3, i64::MAX-3..MAX), each also compared with chrono (from_timestamp_* then timestamp_*); into_opt_i64 / Cast<Option<i64>> / IsNone / as_cr / \
 year..second getters / From<chrono> round trip on 4 units x (NaT, -130..=130, the same edge values); From<chrono> on 4 units x 33 second values x 16 sub-second values; \
 every operator (DateTime+-TimeDelta, DateTime-DateTime, TimeDelta neg + - *i32, Time+-TimeDelta) on grids that put NaT in every operand position; \
-then {n} random conversions over the whole i64 range (uniform bit length) and {} random cases of each other request. non-trivial = output has a non-null token.", n / 4)
+then {n} random conversions over the whole i64 range (uniform bit length) and {} random cases of each other request. A missing optional number (None of f64, f32, i64, i32, u64, usize, isize, u8) cast to DateTime of each unit, TimeDelta and Time must be NaT (24 flags per unit). non-trivial = output has a non-null token.", n / 4)
 }
